@@ -390,10 +390,14 @@ def sparseprofile(rng):
     base = list(range(1, nc + 1))
     supported = rng.sample(base, rng.randint(1, max(1, seats - 1)))
     lines = []
+    unsupported = [c for c in base if c not in supported]
     for c in supported:
         lines.append((rng.randint(2, 9), [c]))
         if rng.random() < 0.5:
             lines.append((rng.randint(1, 3), [c, rng.choice(base)] if rng.random() < 0.5 else [c]))
+        if unsupported and len(supported) > 1 and rng.random() < 0.6:
+            # a paper that passes over a candidate nobody supports on its way to another supported one
+            lines.append((rng.randint(1, 4), [c, rng.choice(unsupported), rng.choice([x for x in supported if x != c])]))
     lines = [(m, list(dict.fromkeys(r))) for m, r in lines]
     if rng.random() < 0.5:
         lines.append((1, rng.sample(base, 2)))
